@@ -11,7 +11,8 @@ FS_NAMESPACES = [
     r"^tempfile::", r"^walkdir::", r"^libc::", r"^nix::", r"^std::io::Write::", r"^std::io::copy",
     r"^<async_std::fs::", r"^<std::fs::", r"^<tempfile::", r"^<std::io::BufWriter", r"^<std::io::LineWriter",
     r"^std::io::BufWriter", r"^std::io::LineWriter", r"^std::env::set_", r"^std::env::remove_", r"^fs_err::", r"^tokio::fs::",
-    r"^futures_lite::io::AsyncWriteExt", r"^futures_util::io::AsyncWriteExt", r"^std::path::Path::(exists|is_file|is_dir|metadata|symlink_metadata|read_dir|read_link|canonicalize|try_exists|is_symlink)$",
+    r"^futures_lite::(io::)?AsyncWriteExt", r"^futures_util::(io::)?AsyncWriteExt", r"^futures::(io::)?AsyncWriteExt", r"^tokio::io::AsyncWriteExt",
+    r"^async_std::io::prelude::WriteExt", r"^async_std::prelude::.*WriteExt", r"^futures_io::AsyncWrite", r"^futures::io::AsyncWrite", r"^std::path::Path::(exists|is_file|is_dir|metadata|symlink_metadata|read_dir|read_link|canonicalize|try_exists|is_symlink)$",
 ]
 
 READ_ONLY = [
